@@ -150,7 +150,13 @@ def _io(ctx, R, T, cls, meth, libcall, epattr, exc):
         v = unawait(x.ast.value) if x.ast.value is not None else None
         if isinstance(v, ast.Call) and isinstance(v.func, ast.Name) and v.func.id in ("bytes", "bytearray") and len(v.args) == 1:
             v = unawait(v.args[0])
-        R.check(v is c, "USB-io", "%s|%s" % (q, norm_stmt(x.ast)[:50]), "returns libusb's result", "%s returns `%s`, not the result of %s" % (meth, norm_stmt(x.ast)[:60], libcall), f.loc(x.ast))
+        okv = v is c
+        if not okv and x.ast.value is not None:
+            # through a local: the value returned is (bytes of) the result of that very call
+            rt = T.term(f, x, x.ast.value)
+            ct = T.term(f, n, c)
+            okv = rt == ct or (rt[0] == "call" and rt[1] in ("builtins.bytes", "builtins.bytearray") and len(rt[2]) == 1 and rt[2][0] == ct)
+        R.check(okv, "USB-io", "%s|%s" % (q, norm_stmt(x.ast)[:50]), "returns libusb's result", "%s returns `%s`, not the result of %s" % (meth, norm_stmt(x.ast)[:60], libcall), f.loc(x.ast))
     R.check(g.exit not in g.reach([g.entry], avoid=rets, exc=True, include_start=True), "USB-io", q + "|no-implicit-none", "never returns None", "%s can finish without a result" % meth, f.loc())
 
 
